@@ -18,8 +18,10 @@ CLAIMS = {
     'C18.query': 'a query returns, for every time, exactly the queried variables '
                  'that exist, with their emitted values, whatever the values',
 }
-GOALS = {'quick': ['falsy value possible', 'partial query'],
-         'thorough': ['falsy value possible', 'partial query']}
+GOALS = {'quick': ['falsy value possible', 'partial query',
+                   'history inserted out of time order'],
+         'thorough': ['falsy value possible', 'partial query',
+                      'history inserted out of time order']}
 STUBS = ['RAMEmitter.saved_data filled directly with raw data (the accessors '
          'under test read it; no orjson boundary crossed)']
 ASSUMPTIONS = ['values: symbolic ints in [-2,2], symbolic booleans, and a choice '
@@ -55,7 +57,15 @@ def assoc(d, path, v):
 
 def body(ctx, cfg):
     paths = SHAPES[cfg['shape']]
-    times = list(range(cfg['nt']))
+    # insertion order of the raw data: ascending (what the engine produces),
+    # descending or rotated (merged / late data); alignment is claimed by
+    # looking the raw value up under the time the vector names
+    base_times = list(range(cfg['nt']))
+    order = ctx.choice('order', 3)
+    times = [base_times, base_times[::-1],
+             base_times[1:] + base_times[:1]][order]
+    if order:
+        ctx.goal('history inserted out of time order')
     raw = {}
     data = {}
     # one falsy/odd kind at one (solver-chosen) time, "z" elsewhere
@@ -92,32 +102,37 @@ def body(ctx, cfg):
     emitter.saved_data = copy.deepcopy(data)
     for name, ts in (('function', timeseries_from_data(copy.deepcopy(data))),
                      ('accessor', emitter.get_timeseries())):
-        cl = [ts.get('time') == times]
+        tv = ts.get('time')
+        cl = [isinstance(tv, list) and sorted(tv) == sorted(times)]
+        tv = tv if cl[0] else times
         for p in paths:
             lst = get_in(ts, p)
             ok = isinstance(lst, list) and len(lst) == len(times)
             cl.append(ok)
             if ok:
-                cl += [same(lst[i], raw[(t, p)]) for i, t in enumerate(times)]
+                cl += [same(lst[i], raw[(t, p)]) for i, t in enumerate(tv)]
         qkey = qpath[:-1] + ((qpath[-1], 'micrometer'),)
         qs = get_in(ts, qkey)
         cl.append(isinstance(qs, list) and
-                  list(qs) == qmags[:len(times)])
+                  list(qs) == [qmags[times.index(t)] for t in tv])
         ctx.claim('C18.aligned', AND(cl), sig='aligned-' + name,
                   info=lambda: dict(data=data, timeseries=ts))
     # ---- path timeseries
     for name, pts in (('function', path_timeseries_from_data(
             copy.deepcopy(data))), ('accessor', emitter.get_path_timeseries())):
         qkey = qpath[:-1] + ((qpath[-1], 'micrometer'),)
-        cl = [pts.get('time') == times,
+        tv = pts.get('time')
+        tv_ok = isinstance(tv, list) and sorted(tv) == sorted(times)
+        tv = tv if tv_ok else times
+        cl = [tv_ok,
               set(pts.keys()) == set(paths) | {'time', qkey},
-              list(pts.get(qkey, [])) == qmags[:len(times)]]
+              list(pts.get(qkey, [])) == [qmags[times.index(t)] for t in tv]]
         for p in paths:
             lst = pts.get(p)
             ok = isinstance(lst, list) and len(lst) == len(times)
             cl.append(ok)
             if ok:
-                cl += [same(lst[i], raw[(t, p)]) for i, t in enumerate(times)]
+                cl += [same(lst[i], raw[(t, p)]) for i, t in enumerate(tv)]
         ctx.claim('C18.roundtrip', AND(cl), sig='roundtrip-' + name,
                   info=lambda: dict(data=data, path_timeseries=pts))
     # ---- query: a subset of the paths plus one path that does not exist
@@ -128,7 +143,7 @@ def body(ctx, cfg):
     if sel:
         query = sel + [('nope', 'x')]
         got = emitter.get_data(query)
-        cl = [list(got.keys()) == times]
+        cl = [sorted(got.keys()) == sorted(times)]
         for t in times:
             row = got.get(t, {})
             for p in sel:
